@@ -178,16 +178,26 @@ func ParseWWWAuthenticate(headers []string) ([]Challenge, error) {
 func splitChallenges(header string) ([]string, error) {
 	var challenges []string
 	inQuotes := false
+	escaped := false // the previous character was an unescaped backslash inside a quoted string
 	start := 0
 	for i, r := range header {
+		if escaped {
+			// A quoted-pair: this character is escaped, whatever it is (including
+			// a quote, or a second backslash that must not escape what follows).
+			escaped = false
+			continue
+		}
+		if r == '\\' && inQuotes {
+			escaped = true
+			continue
+		}
 		if r == '"' {
-			if i > 0 && header[i-1] != '\\' {
-				inQuotes = !inQuotes
-			} else if i == 0 {
+			if i == 0 {
 				// A challenge begins with an auth-scheme, which is a token, which cannot contain
 				// a quote.
 				return nil, errors.New(`challenge begins with '"'`)
 			}
+			inQuotes = !inQuotes
 		} else if r == ',' && !inQuotes {
 			// This is a potential challenge separator.
 			// A new challenge does not start with `key=value`.
